@@ -55,12 +55,12 @@ FLOORS = {
                            "ann_fused_groups_with_differing_annotations": 600, "fuse_roots_merged_layers": 500,
                            "fuse_roots_ann_groups_with_annotations": 30, "complete_subset_spaces": 900},
               "sets": {"annotation_combinations": 550, "layer_features": 18}, "max_skipped_fraction": 0.05},
-    "thorough": {"evaluations": 22000, "distinct_nontrivial": 21000,
-                 "counters": {"hlg_cull_checked": 300000, "hlg_cull_twice_checked": 75000, "layer_cull_checked": 800000,
-                              "layer_cull_twice_checked": 190000, "task_deps_compared": 1900000, "fused_values_checked": 90000,
-                              "layers_absorbed": 60000, "ann_fused_groups_with_differing_annotations": 8000,
-                              "fuse_roots_merged_layers": 9000, "fuse_roots_ann_groups_with_annotations": 400},
-                 "sets": {"annotation_combinations": 4000, "layer_features": 20}, "max_skipped_fraction": 0.05},
+    "thorough": {"evaluations": 13500, "distinct_nontrivial": 13000,
+                 "counters": {"hlg_cull_checked": 220000, "hlg_cull_twice_checked": 55000, "layer_cull_checked": 560000,
+                              "layer_cull_twice_checked": 140000, "task_deps_compared": 1300000, "fused_values_checked": 64000,
+                              "layers_absorbed": 42000, "ann_fused_groups_with_differing_annotations": 5400,
+                              "fuse_roots_merged_layers": 6000, "fuse_roots_ann_groups_with_annotations": 350},
+                 "sets": {"annotation_combinations": 2500, "layer_features": 20}, "max_skipped_fraction": 0.05},
 }
 EXHAUSTIVE_SPACE = ("every subset of output blocks for outputs with <= 6 blocks; all ordered pairs and triples of lattice "
                     "values per annotation key (priority, retries, resources, workers, allow_other_workers) on a fixed chain")
@@ -111,7 +111,7 @@ def cases(tier, seed):
                 yield {"space": "exhaustive", "pseed": 1000 + n, "nops": n, "dtype": "int64", "anns": anns, "chain_only": True,
                        "shape": [4, 4], "chunks": [[2, 2], [1, 3]], "root": "ones", "lat": key}
     # ---- random stacks ---------------------------------------------------------------------------------------------------
-    n = 2500 if tier == "quick" else 50000
+    n = 2500 if tier == "quick" else 30000
     for i in range(n):
         nops = rng.choice((2, 2, 3, 3, 4, 4, 5, 6))
         mode = rng.random()
